@@ -94,17 +94,18 @@ type nodeState struct {
 	lastInfo *ev.Info
 
 	// applied tracking (FSM goroutine)
-	appliedIdx  uint64
-	fsmLen      int64
-	fsmRoll     uint64
-	lastFsmVal  string
-	lastFsmPos  int64
-	hasFsmVal   bool
-	snapLabels  map[uint64]*ev.Rec // snapshot index -> snapmeta record
-	termBefore  uint64
-	snapTouched bool // restore / install / compaction happened in this incarnation
-	xferPermit  bool // told to time out now, candidate ever since
-	leaderKnown uint64
+	appliedIdx   uint64
+	fsmLen       int64
+	fsmRoll      uint64
+	lastFsmVal   string
+	lastFsmPos   int64
+	hasFsmVal    bool
+	snapLabels   map[uint64]*ev.Rec // snapshot index -> snapmeta record
+	termBefore   uint64
+	snapTouched  bool   // restore / install / compaction happened in this incarnation
+	truncPending uint64 // a truncation from this index has started and not finished
+	xferPermit   bool   // told to time out now, candidate ever since
+	leaderKnown  uint64
 }
 
 type voteKey struct {
@@ -145,6 +146,8 @@ type Analyzer struct {
 
 	wireIDs       map[uint64]bool    // node ids used by wire-level harness peers
 	elXfer        map[[3]uint64]bool // (cid, candidate, term) -> the election had transfer permission
+	alias         map[uint64]uint64  // virtual node id -> peer id it speaks as (engine B)
+	lastWire      *ev.Rec
 	cfgPayload    map[[3]uint64]*ev.Cfg
 	ticks         int64
 	faultsStopped bool
@@ -200,6 +203,7 @@ func New() *Analyzer {
 		servingDirs: map[string]nodeKey{},
 		wireIDs:     map[uint64]bool{},
 		elXfer:      map[[3]uint64]bool{},
+		alias:       map[uint64]uint64{},
 	}
 }
 
@@ -329,7 +333,14 @@ func (a *Analyzer) Feed(r *ev.Rec) {
 		a.onState(n, r, false)
 	case "append":
 		a.onAppend(n, r)
+	case "trunc-begin":
+		if n != nil {
+			n.truncPending = r.Idx
+		}
 	case "trunc":
+		if n != nil {
+			n.truncPending = 0
+		}
 		a.onTrunc(n, r)
 	case "clear":
 		a.onClear(n, r)
@@ -426,6 +437,17 @@ func (a *Analyzer) Feed(r *ev.Rec) {
 		a.rep.Inconclusive = append(a.rep.Inconclusive, "harness error: "+r.Err)
 	case "wire-id":
 		a.wireIDs[r.ID] = true
+		if r.Src != 0 {
+			a.alias[r.ID] = r.Src
+		}
+	case "wire-send":
+		a.lastWire = r
+		a.stat("wire-requests")
+		a.stat("wire:" + r.RPC + ":" + r.Note)
+	case "wire-recv":
+		a.stat("wire-replies:" + r.RPC + ":" + r.Res)
+	case "nut-gone":
+		a.find("C15", "node-stopped-serving", "", r.Q, "the node under test stopped serving while peers kept sending requests")
 	case "end":
 		a.ended = true
 	case "logfs-point":
@@ -649,7 +671,7 @@ func (a *Analyzer) onOpen(n *nodeState, r *ev.Rec) {
 			m = r.Log[i].Index
 		}
 	}
-	if r.Cfg != nil {
+	if r.Cfg != nil && !a.isWire(n.key.nid) {
 		if m > 0 && r.Cfg.Index != m {
 			a.find("C12", "membership-after-restart-not-newest-entry", "", r.Q, "%s restarts with membership %s but the newest configuration entry in its log is at %d", n.key, cfgString(r.Cfg), m)
 		}
@@ -672,6 +694,12 @@ func (a *Analyzer) onCrash(n *nodeState, r *ev.Rec) {
 	n.crashPoint = r.Point
 	n.crashLog = n.log
 	n.crashPrev, n.crashLast, n.crashNeed = n.prev, n.last, n.needLast
+	if n.truncPending != 0 && n.crashNeed >= n.truncPending {
+		// killed in the middle of a truncation: what was being removed (entries
+		// that conflict with the leader's) may or may not be gone
+		n.crashNeed = n.truncPending - 1
+	}
+	n.truncPending = 0
 	n.serving = false
 	if r.Err != "" {
 		a.rep.Inconclusive = append(a.rep.Inconclusive, "crash image copy failed: "+r.Err)
@@ -757,7 +785,7 @@ func (a *Analyzer) onAppend(n *nodeState, r *ev.Rec) {
 			a.stat("config-chain-links")
 			a.sample("config-chain", cfgString(pred)+" -> "+cfgString(r.Cfg))
 		}
-		if isLeader && e.Index > 1 && st.CfgL > 0 {
+		if isLeader && e.Index > 1 && st.CfgL > 0 && !a.isWire(n.key.nid) {
 			// the previous configuration is committed in fact: its entry is in
 			// the log of a majority of its own voters
 			if pc := n.latest; pc != nil && pc.Index == st.CfgL && pc.Nodes != nil {
@@ -784,7 +812,7 @@ func (a *Analyzer) onAppend(n *nodeState, r *ev.Rec) {
 				}
 			}
 		}
-		if isLeader && e.Index > 1 {
+		if isLeader && e.Index > 1 && !a.isWire(n.key.nid) {
 			if st.Commit < st.CfgL {
 				a.find("C08", "config-over-uncommitted-config", "", r.Q, "leader %s appends configuration entry %d while its previous configuration (index %d) is not committed (commit %d)", n.key, e.Index, st.CfgL, st.Commit)
 			}
